@@ -138,6 +138,16 @@ def replay(cases_path, out_path):
             nm = names[k]
             if nm and nm not in header and repr(nm) not in header:
                 F.add("header_names", c, header, nm, **info)
+        # every cell of a body line belongs to ONE row (cell of column k in row i is 1000 + i + 5000 k)
+        if n > 0:
+            for ln in lines[:-1]:
+                toks = ln.split()
+                if toks and re.fullmatch(r"\d+", toks[0]) and int(toks[0]) >= 1000:
+                    i_row = (int(toks[0]) - 1000) % 5000
+                    odd_cells = [tk for tk in toks[1:] if re.fullmatch(r"\d+", tk) and int(tk) >= 1000 and (int(tk) - 1000) % 5000 != i_row]
+                    if odd_cells:
+                        F.add("preview_rows", c, ln.strip()[:120], "the cells of row %d in every shown column" % i_row, **info)
+                        break
         # a wide table shows the first and last five columns around an ellipsis column
         if n > 0:
             ncells = len(lines[len(lines) - 3].split()) if len(lines) >= 3 else 0
@@ -330,6 +340,31 @@ def values(out_path):
                             body = [ln for ln in lines if ln.startswith(val) and (val.strip() or ln[:len(val)] == val)]
                             if val.strip() and not body:
                                 F.add("repr_data", case, pic, "a body line starting with the stored text " + repr(val))
+    # ... also when the two cells are EQUAL under == (1 / True / 1.0, 0 / False / 0.0, 0.0 / -0.0) but are different values:
+    # in an object column (a text neighbour keeps it one) each prints as itself, whatever was printed before
+    eq_pairs = [(1, True), (1, 1.0), (True, 1.0), (0, False), (0, 0.0), (False, 0.0), (2, 2.0)]
+    for a, b in eq_pairs + [(y, x) for x, y in eq_pairs]:
+        for what in ("vector", "table", "one vector holding both"):
+            def show(cells):
+                return repr(Vector(list(cells), name="c")) if what != "table" else repr(Table({"c": list(cells), "k": list(range(len(cells)))}))
+            if what == "one vector holding both":
+                sa, ra, ea = attempt(lambda: show(["s", a, b, a]))
+                sb, rb, eb = attempt(lambda: show(["s", a, a, a]))
+            else:
+                sa, ra, ea = attempt(lambda: show(["s", a]))
+                sb, rb, eb = attempt(lambda: show(["s", b]))
+            ex += 1
+            case = {"dtype": "object", "cell a": repr(a), "cell b": repr(b), "what": what}
+            if sa != "ok" or sb != "ok":
+                F.add("repr_raises", case, repr(ea or eb)[:80], "a string", what=what)
+            elif ra == rb:
+                F.add("repr_data", case, ra, "two different pictures: the cells are different values (equal under ==)")
+    for a, b in ((0.0, -0.0), (-0.0, 0.0)):
+        sa, ra, ea = attempt(lambda: repr(Vector([a, 1.5], name="c")))
+        sb, rb, eb = attempt(lambda: repr(Vector([b, 1.5], name="c")))
+        ex += 1
+        if sa == "ok" and sb == "ok" and ra == rb:
+            F.add("repr_data", {"dtype": "float", "cell a": repr(a), "cell b": repr(b), "what": "vector"}, ra, "two different pictures")
     # repr has no memory: whatever was printed before, under whatever preview limit, the picture is that of a fresh equal object
     # under the limit in force NOW
     for nrows in (3, 10, 13, 30):
